@@ -1,4 +1,5 @@
 import SJ.Props.C20
+import SJ.Props.C20Text
 #print axioms SJ.Props.C20.c20_verbatim
 #print axioms SJ.Props.C20.c20_nested
 #print axioms SJ.Props.C20.c20_from_str_sound
@@ -8,3 +9,6 @@ import SJ.Props.C20
 #print axioms SJ.Props.C20.c20_typed_same
 #print axioms SJ.Props.C20.c20_typed_same_value
 #print axioms SJ.Props.C20.c20_typed_number_identical
+#print axioms SJ.Props.C20.c20_text_roundtrip
+#print axioms SJ.Props.C20.c20_text_roundtrip_ap
+#print axioms SJ.Props.C20.c20_number_display
